@@ -4,7 +4,7 @@ import isoutil as iu
 
 ID = 'C08'
 RULE = ('byte strings near the valid language: well-formed messages and their mutations — each length digit replaced by sign, '
-        'space, underscore, NUL, EBCDIC/ASCII cross digits and superscript digits; lengths rewritten to point before, at and past '
+        'space, underscore, NUL, EBCDIC/ASCII cross digits and superscript digits; whole prefixes and the MTI written in the other encoding family; lengths rewritten to point before, at and past '
         'the end; bitmap bits added/removed; truncation and extension by 1..3 bytes — under packaged and generated '
         'configurations, ASCII/EBCDIC codecs, binary/hex bitmap; judged against an independent strict reference decoder (accept) '
         'and an independent frame recomputation (tiling, value = content of own bytes); non-trivial = distinct input accepted by '
@@ -87,6 +87,13 @@ def gen(rng, tier):
                         continue
                     if len(p) == w:
                         cases.append(dict(base, bytes=(b[:hdr + off] + p + b[hdr + off + w:]).hex(), mut='prefix-value'))
+                # the WHOLE prefix (same declared length) written with the digits of the other encoding family: under the
+                # message's encoding those bytes are not a numeral, so the message is not well framed
+                other = 'cp500' if codec in iu.ASCII_CODECS else 'latin_1'
+                p = ('%0*d' % (w, ln)).encode(other)
+                cases.append(dict(base, bytes=(b[:hdr + off] + p + b[hdr + off + w:]).hex(), mut='cross-prefix'))
+            other = 'cp500' if codec in iu.ASCII_CODECS else 'latin_1'
+            cases.append(dict(base, bytes=(b[:4].decode(codec).encode(other) + b[4:]).hex(), mut='cross-mti'))
         # bitmap bits added / removed
         bm_off = 4
         for _ in range(6):
@@ -159,7 +166,7 @@ def judge(case, io_, mo):
 
 
 def nontrivial(case, io_):
-    return io_.get('out', '').startswith('OK ') or case['mut'] in ('valid', 'valid-long', 'prefix-digit', 'prefix-value')
+    return io_.get('out', '').startswith('OK ') or case['mut'] in ('valid', 'valid-long', 'prefix-digit', 'prefix-value', 'cross-prefix', 'cross-mti')
 
 
 def label(case):
